@@ -558,3 +558,231 @@ Proof.
     change (tcache HWLOC_OBJ_GROUP) with false. cbn [andb]. rewrite N.eqb_refl.
     change (SIZEOF_ATTR_GROUP <=? SIZEOF_ATTR_UNION) with true. cbn [andb attr_write_eqb]. now rewrite N.eqb_refl.
 Qed.
+
+(* ================================================================== *)
+(* totality of the parser on NUL-terminated strings *)
+
+Definition bytes_ok (s : list N) : Prop := Forall (fun b => b < 256) s.
+Definition no_e0 (s : list N) : Prop := Forall (fun b => b <> 224) s.
+Definition lit_ok (l : string) : bool := forallb (fun b => negb (b =? 0)) (bytes_of_string l).
+
+Lemma lit_ok_no_nul l : lit_ok l = true -> no_nul (bytes_of_string l).
+Proof.
+  unfold lit_ok, no_nul. rewrite forallb_forall, Forall_forall. intros H b Hb E. subst b.
+  specialize (H 0 Hb). discriminate.
+Qed.
+
+Lemma rd_in s k b : rd s k = Some b -> In b s.
+Proof. unfold rd. apply nth_error_In. Qed.
+
+Lemma cstring_rd s n k : cstring s n -> k <= n -> exists b, rd s k = Some b /\ (b = 0 <-> k = n).
+Proof.
+  intros [H0 Hlt] Hk. destruct (N.eq_dec k n) as [->|Hne].
+  - exists 0. tauto.
+  - destruct (Hlt k) as [b [Hb Nz]]; [lia|]. exists b. tauto.
+Qed.
+
+Lemma tm_differs_nul b : b < 256 -> b <> 0 -> b <> 224 -> tm_differs b 0 = true.
+Proof.
+  intros H1 H2 H3. unfold tm_differs, schar. change (0 <? 128) with true. cbv iota.
+  destruct (N.ltb_spec b 128); apply andb_true_iff; split; apply negb_true_iff; apply Z.eqb_neq; lia.
+Qed.
+
+(* hwloc__type_match never reads outside the caller's string nor outside the literal,
+   provided the code stops at the literal's terminator (chk) or the string has no byte 0xE0 *)
+Lemma tm_loop_ok chk s n p : cstring s n -> bytes_ok s -> (chk = true \/ no_e0 s) ->
+  forall l i mm, no_nul l -> p + i <= n ->
+  exists r, tm_loop chk s p (l ++ [0]) i mm = Ok r /\ (forall e, r = Some e -> p <= e <= n).
+Proof.
+  intros Hs Hb He. induction l as [|tb l IH]; intros i mm Hl Hi.
+  - cbn [app tm_loop].
+    destruct (cstring_rd s n (p + i) Hs Hi) as [b [Rb Zb]]. unfold rdr. rewrite Rb. cbn [bind].
+    destruct (N.eqb_spec b 0) as [E|E].
+    + eexists. split; [reflexivity|]. intros e. destruct (i <? mm); intros [= <-]. lia.
+    + assert (C : (chk && (0 =? 0)) || tm_differs b 0 = true).
+      { destruct He as [-> | Hn]; [reflexivity|]. rewrite andb_comm. cbn [N.eqb andb].
+        destruct chk; [reflexivity|]. cbn [orb]. apply tm_differs_nul; [|exact E|].
+        - unfold bytes_ok in Hb. rewrite Forall_forall in Hb. apply Hb. eapply rd_in; eauto.
+        - unfold no_e0 in Hn. rewrite Forall_forall in Hn. apply Hn. eapply rd_in; eauto. }
+      rewrite C. destruct (tm_letter b); eexists; (split; [reflexivity|]); intros e; [discriminate|].
+      destruct (i <? mm); intros [= <-]. lia.
+  - cbn [app tm_loop].
+    destruct (cstring_rd s n (p + i) Hs Hi) as [b [Rb Zb]]. unfold rdr. rewrite Rb. cbn [bind].
+    destruct (N.eqb_spec b 0) as [E|E].
+    + eexists. split; [reflexivity|]. intros e. destruct (i <? mm); intros [= <-]. lia.
+    + destruct ((chk && (tb =? 0)) || tm_differs b tb).
+      * destruct (tm_letter b); eexists; (split; [reflexivity|]); intros e; [discriminate|].
+        destruct (i <? mm); intros [= <-]. lia.
+      * inversion Hl as [|x l' Hx Hl']; subst. apply IH; [exact Hl'|].
+        assert (p + i <> n) by tauto. lia.
+Qed.
+
+Lemma type_match_ok chk s n p lit mm : cstring s n -> bytes_ok s -> (chk = true \/ no_e0 s) ->
+  lit_ok lit = true -> p <= n ->
+  exists r, type_match chk s p lit mm = Ok r /\ (forall e, r = Some e -> p <= e <= n).
+Proof.
+  intros Hs Hb He Hl Hp. unfold type_match, cstr.
+  apply (tm_loop_ok chk s n p Hs Hb He); [apply lit_ok_no_nul, Hl|lia].
+Qed.
+
+Definition alts_ok (alts : list (string * N)) : bool := forallb (fun a => lit_ok (fst a)) alts.
+Definition kw_ok {A} (tbl : list (list (string * N) * A)) : bool := forallb (fun e => alts_ok (fst e)) tbl.
+
+Lemma any_match_ok chk s n p : cstring s n -> bytes_ok s -> (chk = true \/ no_e0 s) -> p <= n ->
+  forall alts, alts_ok alts = true -> exists b, any_match chk s p alts = Ok b.
+Proof.
+  intros Hs Hb He Hp. induction alts as [|[k mm] r IH]; intros H; cbn [any_match]; [eexists; reflexivity|].
+  cbn [alts_ok forallb fst] in H. apply andb_true_iff in H. destruct H as [Hk Hr].
+  destruct (type_match_ok chk s n p k mm Hs Hb He Hk Hp) as [m [E _]]. rewrite E. cbn [bind].
+  destruct m; [eexists; reflexivity|apply IH, Hr].
+Qed.
+
+Lemma first_kw_ok {A} chk s n p : cstring s n -> bytes_ok s -> (chk = true \/ no_e0 s) -> p <= n ->
+  forall (tbl : list (list (string * N) * A)), kw_ok tbl = true -> exists r, first_kw chk s p tbl = Ok r.
+Proof.
+  intros Hs Hb He Hp. induction tbl as [|[alts a] r IH]; intros H; cbn [first_kw]; [eexists; reflexivity|].
+  cbn [kw_ok forallb fst] in H. apply andb_true_iff in H. destruct H as [Ha Hr].
+  destruct (any_match_ok chk s n p Hs Hb He Hp alts Ha) as [b E]. rewrite E. cbn [bind].
+  destruct b; [eexists; reflexivity|apply IH, Hr].
+Qed.
+
+(* strncasecmp(string, "lit", k) == 0 with k <= strlen(lit): the string has at least k bytes *)
+Lemma strncmp_eq_len fold : fold_ok fold -> forall k a na i l j, cstring a na -> i <= na -> no_nul l ->
+  strncmp_f fold k a i (l ++ [0]) j = Ok None -> j + N.of_nat k <= len l -> i + N.of_nat k <= na.
+Proof.
+  intros Hf. induction k as [|k IH]; intros a na i l j Ha Hi Hl H Hj; [cbn; lia|].
+  cbn [strncmp_f] in H.
+  destruct (cstring_rd a na i Ha Hi) as [x [Rx Zx]]. unfold rdr in H at 1. rewrite Rx in H. cbn [bind] in H.
+  assert (Hjl : j < len l) by lia.
+  destruct (rd_lt_some l j Hjl) as [y Ry].
+  assert (Ry' : rd (l ++ [0]) j = Some y) by (rewrite rd_app_l by exact Hjl; exact Ry).
+  assert (Ny : y <> 0).
+  { unfold no_nul in Hl. rewrite Forall_forall in Hl. apply Hl. eapply rd_in; eauto. }
+  unfold rdr in H at 1. rewrite Ry' in H. cbn [bind] in H.
+  destruct (N.eqb_spec (fold x) (fold y)) as [F|F]; cbn [negb] in H; [|discriminate].
+  destruct (N.eqb_spec x 0) as [X|X].
+  - exfalso. subst x. apply Ny, Hf. congruence.
+  - assert (i <> na) by tauto.
+    specialize (IH a na (N.succ i) l (N.succ j) Ha ltac:(lia) Hl H ltac:(lia)). lia.
+Qed.
+
+Lemma strncasecmp_lit_ok s n l k : cstring s n -> lit_ok l = true ->
+  exists b, cmp_eq (strncasecmp s 0 (cstr l) 0 k) = Ok b /\ (b = true -> k <= len (bytes_of_string l) -> k <= n).
+Proof.
+  intros Hs Hl. pose proof (lit_ok_no_nul l Hl) as Hn.
+  assert (Hc : cstring (cstr l) (len (bytes_of_string l))) by (unfold cstr; apply (cstring_app _ [] Hn)).
+  unfold strncasecmp.
+  pose proof (strncmp_f_ok tolower (N.to_nat k) s n 0 (cstr l) (len (bytes_of_string l)) 0 fold_ok_tolower Hs Hc ltac:(lia) ltac:(lia)) as Hok.
+  destruct (strncmp_f tolower (N.to_nat k) s 0 (cstr l) 0) as [o|] eqn:E; [|congruence].
+  cbn [cmp_eq bind]. eexists. split; [reflexivity|]. intros Hb Hk. destruct o; [discriminate|].
+  unfold cstr in E.
+  pose proof (strncmp_eq_len tolower fold_ok_tolower (N.to_nat k) s n 0 (bytes_of_string l) 0 Hs ltac:(lia) Hn E ltac:(lia)). lia.
+Qed.
+
+Lemma osdev_types_loop_ok chk s n : cstring s n -> bytes_ok s -> (chk = true \/ no_e0 s) ->
+  forall fuel p acc, p <= n -> (N.to_nat (n - p) < fuel)%nat -> exists r, osdev_types_loop chk fuel s p acc = Ok r.
+Proof.
+  intros Hs Hb He. induction fuel as [|f IH]; intros p acc Hp Hf; [lia|].
+  cbn [osdev_types_loop]. unfold osdev_type_sscanf.
+  destruct (first_kw_ok chk s n p Hs Hb He Hp osdev_kw eq_refl) as [o Eo]. rewrite Eo. cbn [bind].
+  destruct (strchr_ok s n p 44 Hs Hp) as [r [Er Pr]]. rewrite Er. cbn [bind].
+  destruct r as [j|].
+  - destruct Pr as [Hj [Rj _]].
+    assert (j <> n). { intros ->. destruct Hs as [H0 _]. congruence. }
+    apply IH; lia.
+  - destruct (strchr_ok s n p 93 Hs Hp) as [r2 [Er2 _]]. rewrite Er2. cbn [bind]. eexists; reflexivity.
+Qed.
+
+Lemma osdev_types_sscanf_ok chk s n p : cstring s n -> bytes_ok s -> (chk = true \/ no_e0 s) -> p <= n ->
+  exists r, osdev_types_sscanf chk s p = Ok r.
+Proof.
+  intros Hs Hb He Hp. unfold osdev_types_sscanf. apply (osdev_types_loop_ok chk s n Hs Hb He); [exact Hp|].
+  destruct Hs as [H0 _]. apply rd_some_lt in H0. unfold len in H0. lia.
+Qed.
+
+(* the keyword chain *)
+Lemma sscanf_phase_ok chk s n : cstring s n -> bytes_ok s -> (chk = true \/ no_e0 s) ->
+  exists ph, sscanf_phase chk s = Ok ph /\ (ph = PhLcache -> 1 <= n) /\ (forall e, ph = PhGroup e -> e <= n).
+Proof.
+  intros Hs Hb He. unfold sscanf_phase.
+  destruct (strncasecmp_lit_ok s n "osdev[" 6 Hs eq_refl) as [b1 [E1 L1]]. rewrite E1. cbn [bind].
+  destruct b1.
+  { destruct (osdev_types_sscanf_ok chk s n 6 Hs Hb He (L1 eq_refl ltac:(vm_compute; discriminate))) as [os Eos].
+    rewrite Eos. cbn [bind]. eexists. split; [reflexivity|]. split; [discriminate|intros e; discriminate]. }
+  destruct (strncasecmp_lit_ok s n "os[" 3 Hs eq_refl) as [b2 [E2 L2]]. rewrite E2. cbn [bind].
+  destruct b2.
+  { destruct (osdev_types_sscanf_ok chk s n 3 Hs Hb He (L2 eq_refl ltac:(vm_compute; discriminate))) as [os Eos].
+    rewrite Eos. cbn [bind]. eexists. split; [reflexivity|]. split; [discriminate|intros e; discriminate]. }
+  destruct (type_match_ok chk s n 0 "osdev" 2 Hs Hb He eq_refl ltac:(lia)) as [m [Em _]]. rewrite Em. cbn [bind].
+  destruct m. { eexists. split; [reflexivity|]. split; [discriminate|intros e; discriminate]. }
+  unfold osdev_type_sscanf.
+  destruct (first_kw_ok chk s n 0 Hs Hb He ltac:(lia) osdev_kw eq_refl) as [o Eo]. rewrite Eo. cbn [bind].
+  destruct o. { eexists. split; [reflexivity|]. split; [discriminate|intros e; discriminate]. }
+  destruct (first_kw_ok chk s n 0 Hs Hb He ltac:(lia) plain_kw eq_refl) as [k Ek]. rewrite Ek. cbn [bind].
+  destruct k as [[t ub]|]. { eexists. split; [reflexivity|]. split; [discriminate|intros e; discriminate]. }
+  destruct (cstring_rd s n 0 Hs ltac:(lia)) as [c0 [R0 Z0]]. unfold rdr at 1. rewrite R0. cbn [bind].
+  assert (ISL : exists isl, (if (c0 =? 108) || (c0 =? 76) then let* c1 := rdr s 1 in Ok (isdigit c1) else Ok false) = Ok isl
+                            /\ (isl = true -> 1 <= n)).
+  { destruct ((c0 =? 108) || (c0 =? 76)) eqn:EL.
+    - assert (c0 <> 0). { intros ->. discriminate. }
+      assert (0 <> n) by tauto.
+      destruct (cstring_rd s n 1 Hs ltac:(lia)) as [c1 [R1 _]]. unfold rdr. rewrite R1. cbn [bind].
+      eexists. split; [reflexivity|]. intros _. lia.
+    - eexists. split; [reflexivity|discriminate]. }
+  destruct ISL as [isl [EI LI]]. rewrite EI. cbn [bind].
+  destruct isl. { eexists. split; [reflexivity|]. split; [intros _; apply LI; reflexivity|intros e; discriminate]. }
+  destruct (type_match_ok chk s n 0 "group" 2 Hs Hb He eq_refl ltac:(lia)) as [g [Eg Bg]]. rewrite Eg. cbn [bind].
+  destruct g as [e|]; eexists; (split; [reflexivity|]); (split; [discriminate|]).
+  - intros e' [= <-]. destruct (Bg e eq_refl). lia.
+  - intros e'; discriminate.
+Qed.
+
+Lemma lcache_finish_ok chk s n t d ct suffix : cstring s n -> bytes_ok s -> (chk = true \/ no_e0 s) -> suffix <= n ->
+  exists r, lcache_finish chk s t d ct suffix = Ok r.
+Proof.
+  intros Hs Hb He Hp. unfold lcache_finish.
+  destruct (type_match_ok chk s n suffix "cache" 0 Hs Hb He eq_refl Hp) as [m [Em _]]. rewrite Em. cbn [bind].
+  destruct m; eexists; reflexivity.
+Qed.
+
+Lemma lcache_branch_ok chk s n : cstring s n -> bytes_ok s -> (chk = true \/ no_e0 s) -> 1 <= n ->
+  exists r, lcache_branch chk s = Ok r.
+Proof.
+  intros Hs Hb He H1. unfold lcache_branch.
+  destruct (strtol_ok s n 1 10 Hs H1) as [v [e [Ev He']]]. rewrite Ev. cbn [bind fst snd].
+  destruct (cstring_rd s n e Hs ltac:(lia)) as [ce [Re Ze]]. unfold rdr. rewrite Re. cbn [bind].
+  assert (NZ : forall x, x <> 0 -> ce = x -> N.succ e <= n).
+  { intros x Hx ->. assert (e <> n) by tauto. lia. }
+  assert (Q : forall a b, (ce =? a) || (ce =? b) = true -> a <> 0 -> b <> 0 -> N.succ e <= n).
+  { intros a b H Ha Hb'. apply orb_true_iff in H. destruct H as [H|H]; apply N.eqb_eq in H; [exact (NZ a Ha H)|exact (NZ b Hb' H)]. }
+  destruct ((ce =? 105) || (ce =? 73)) eqn:Ei.
+  { destruct ((1 <=? to_unsigned v) && (to_unsigned v <=? 3)); [|eexists; reflexivity].
+    apply (lcache_finish_ok chk s n); auto. apply (Q 105 73 Ei); discriminate. }
+  destruct ((1 <=? to_unsigned v) && (to_unsigned v <=? 5)); [|eexists; reflexivity].
+  destruct ((ce =? 100) || (ce =? 68)) eqn:Ed.
+  { apply (lcache_finish_ok chk s n); auto. apply (Q 100 68 Ed); discriminate. }
+  destruct ((ce =? 117) || (ce =? 85)) eqn:Eu.
+  { apply (lcache_finish_ok chk s n); auto. apply (Q 117 85 Eu); discriminate. }
+  apply (lcache_finish_ok chk s n); auto. lia.
+Qed.
+
+Lemma group_branch_ok s n e : cstring s n -> e <= n -> exists r, group_branch s e = Ok r.
+Proof.
+  intros Hs He. unfold group_branch.
+  destruct (cstring_rd s n e Hs He) as [c [Rc _]]. unfold rdr. rewrite Rc. cbn [bind].
+  destruct (isdigit c); [|eexists; reflexivity].
+  destruct (strtol_ok s n e 10 Hs He) as [v [e' [Ev _]]]. rewrite Ev. cbn [bind]. eexists; reflexivity.
+Qed.
+
+(* hwloc_type_sscanf returns 0 or -1 and never reads outside its arguments *)
+Lemma type_sscanf_total_gen chk s n asz : cstring s n -> bytes_ok s -> (chk = true \/ no_e0 s) ->
+  exists r, type_sscanf chk s asz = Ok r.
+Proof.
+  intros Hs Hb He. unfold type_sscanf, type_sscanf_vals.
+  destruct (sscanf_phase_ok chk s n Hs Hb He) as [ph [Ep [PL PG]]]. rewrite Ep. cbn [bind].
+  destruct ph as [v| |e|].
+  - cbn [bind]. eexists; reflexivity.
+  - destruct (lcache_branch_ok chk s n Hs Hb He (PL eq_refl)) as [r Er]. rewrite Er. cbn [bind]. destruct r; eexists; reflexivity.
+  - destruct (group_branch_ok s n e Hs (PG e eq_refl)) as [r Er]. rewrite Er. cbn [bind]. destruct r; eexists; reflexivity.
+  - cbn [bind]. eexists; reflexivity.
+Qed.
